@@ -58,7 +58,7 @@ CHECKS = {
             "The snapshot is the pinned commit 76efab5 (before any hook or fix). Reverse direction (current writer, reference reader) is not part of the property and is not judged.",
             SIM + "differential decoding across two code histories (pinned reference snapshot vs current tree) + fixed golden corpus"),
     "C11": ("exploration",
-            "Streams of 0-12 blocks; for each, EVERY range 1 <= from <= to <= blocks+3 is decoded under the scheduler with drawn decoder jobs 1-8 and Read sizes; oracle: slice model D[(from-1)B : min((to-1)B, |D|)] then EOF. In a third of the cases blocks outside the range are damaged: a skipped block is never decoded, so the result must not change.",
+            "Streams of 0-12 blocks; for each, EVERY range 1 <= from <= to <= blocks+3 is decoded under the scheduler with drawn decoder jobs 1-8 and Read sizes; plus three ranges with bounds far beyond the last block (MaxInt32, 2^31, 2^32+3, 2^40, MaxInt as `to`, also as `from`); oracle: slice model D[(from-1)B : min((to-1)B, |D|)] then EOF. In a third of the cases blocks outside the range are damaged: a skipped block is never decoded, so the result must not change.",
             "Ranges exhaustive per sampled stream; streams, jobs and schedules sampled.",
             SIM + "exhaustive block ranges per sampled stream against a slice model; damaged skipped blocks as fault injection"),
     "C14": ("exploration",
@@ -66,11 +66,11 @@ CHECKS = {
             "No concurrency in this layer; short reads at this layer are C06's business.",
             "model-based operation programs from the simulator's choice tape against a bit-vector reference model (no schedule dimension)"),
     "C17": ("exploration",
-            "Tape-generated call histories on one Writer (Write of any length incl. 0 and block-aligned sizes, Close at any point and repeated, GetWritten) and on one Reader over the produced stream (Read of any length incl. 0, Close repeated, GetRead), jobs 1-4 under the scheduler, optionally one transient sink failure during Close; every return value is compared with a small lifecycle machine (open / close-failed / closed; bytes accepted; cursor) as the call returns.",
+            "Tape-generated call histories on one Writer (Write of any length incl. 0 and block-aligned sizes, Close at any point and repeated, GetWritten) and on one Reader over the produced stream (Read of any length incl. 0, Close repeated, GetRead; the source delivers whole or short reads and the input bitstream buffer is drawn from 1 KiB to the default, so counters are observed across buffer refills), jobs 1-4 under the scheduler, optionally one transient sink failure during Close; every return value is compared with a small lifecycle machine (open / close-failed / closed; bytes accepted; cursor) as the call returns.",
             "After a failed Close only Close/GetWritten are issued (the state is not specified by the property); a failure that hit a block task leaves the writer permanently failed, which is C08's business.",
             SIM + "random API call histories against a lifecycle reference machine"),
     "C18": ("exploration",
-            "K = 2-4 (thorough: up to 8) driver tasks in one process, each compressing then decompressing its own stream (codecs weighted toward those with package-level tables: TEXT dictionary, CM/TPAQ/FPAQ tables, Huffman, BWT; thorough adds blocks above 4 MiB so the inverse-BWT helper goroutines run), all block tasks of all streams under ONE seeded scheduler plus the hand-off monitor per stream. The worker is built with -race and the simulator's baton is wrapped in runtime.RaceDisable, so the happens-before relation the detector judges is the library's own and the verdict is a function of the (replayable) schedule. Oracle: per instance, compressed and decoded bytes equal those of the same instance run alone; no race report (exit 66 is charged to the case in flight and confirmed by replaying it alone).",
+            "K = 2-4 (thorough: up to 8) driver tasks in one process, each compressing then decompressing its own stream (codecs weighted toward those with package-level tables: TEXT dictionary, CM/TPAQ/FPAQ tables, Huffman, BWT; thorough adds blocks above 4 MiB so the inverse-BWT helper goroutines run), all block tasks of all streams under ONE seeded scheduler (which also interleaves tasks between the stages of their transform chains and while their entropy codec objects are alive) plus the hand-off monitor per stream. The worker is built with -race and the simulator's baton is wrapped in runtime.RaceDisable, so the happens-before relation the detector judges is the library's own and the verdict is a function of the (replayable) schedule. Oracle: per instance, compressed and decoded bytes equal those of the same instance run alone; no race report (exit 66 is charged to the case in flight and confirmed by replaying it alone).",
             "The race detector sees only the executions explored (sampling). Race builds are about 8x slower: fewer cases than the other checks.",
             SIM + "K concurrent pipelines under one scheduler, Go race detector with a baton invisible to it, differential oracle against isolated runs"),
     "C19": ("exploration",
